@@ -20,7 +20,7 @@ for d in sorted(glob.glob(os.path.join(V, 'seeded', '*'))):
     rows.append("| %s | %s | **%s**%s — %s |" % (n, nt['what'], v, (' (also %s)' % ', '.join(others)) if others else '', nt['how']))
 head = """## Appendix B. Seeded changes: which checks catch which
 
-%d changes were written by independent sub-agents in eight rounds (two per property and round; rounds 3 and 4 asked for order-dependent, multi-step, concurrent and cooperating-site changes, rounds 5 to 8 for changes unlike the families already seen), each agent given only the property's text and a scratch worktree (nothing from /verif). Each was validated by `tools/seed.py` in a scratch worktree of /repo's HEAD at the time: the patch applies, the 79 existing tests pass with it, the agent's demonstration fails with it and passes without it. They are kept as `/verif/seeded/<id>-m<k>/{patch.diff, demo_test.go, description.txt, meta.json}` (meta.json records the repo commit the patch was validated against). The table gives the verdict of the **quick check of the targeted property** run with `VERIF_REPO` pointing at the mutated scratch copy (exit 1 + natively replayed VIOLATION = caught). First-shot detection was 8/16 (round 1), 10/24 (round 2), 17/28 (round 3), 5/12 (round 4) about 8/20 (round 5), 11/20 (round 6) and 15/20 (round 7, three of them through `HarnessShapes`, written from the agents' descriptions while their changes were still being validated) and 12/20 (round 8); every miss was analysed and the harness families were generalised (third column) rather than special-cased.
+%d changes were written by independent sub-agents in nine rounds (two per property and round; rounds 3 and 4 asked for order-dependent, multi-step, concurrent and cooperating-site changes, rounds 5 to 9 for changes unlike the families already seen), each agent given only the property's text and a scratch worktree (nothing from /verif). Each was validated by `tools/seed.py` in a scratch worktree of /repo's HEAD at the time: the patch applies, the 79 existing tests pass with it, the agent's demonstration fails with it and passes without it. They are kept as `/verif/seeded/<id>-m<k>/{patch.diff, demo_test.go, description.txt, meta.json}` (meta.json records the repo commit the patch was validated against). The table gives the verdict of the **quick check of the targeted property** run with `VERIF_REPO` pointing at the mutated scratch copy (exit 1 + natively replayed VIOLATION = caught). First-shot detection was 8/16 (round 1), 10/24 (round 2), 17/28 (round 3), 5/12 (round 4) about 8/20 (round 5), 11/20 (round 6) and 15/20 (round 7, three of them through `HarnessShapes`, written from the agents' descriptions while their changes were still being validated) 12/20 (round 8) and 14/20 (round 9, two of them through `HarnessShapes` kinds written from the descriptions); every miss was analysed and the harness families were generalised (third column) rather than special-cased.
 
 | seeded change | what it does | verdict now · what catches it / what had to be added |
 |---|---|---|
